@@ -134,7 +134,7 @@ func isExecNode(n *node, exec bltn) bool {
 		return false
 	}
 
-	return execID(n.exec) == execID(exec)
+	return execID(n.exec) == execID(exec) || n.debug != nil && n.debug.forward != nil && execID(n.debug.forward) == execID(exec)
 }
 
 // originalExecNode looks in the tree of nodes for the node which has exec,
